@@ -118,7 +118,7 @@ func Build(work string, mq *runner.Moq, t *gen.Tree, rng *rand.Rand, variants []
 	// joint requests: several interfaces mocked by ONE invocation into one file of the source package (state that moq
 	// carries from one mock of a run to the next - caches, name sets, import aliases - only shows there)
 	for jr, names := range t.FixedRequests {
-		if jr >= 12 {
+		if jr >= 24 {
 			break
 		}
 		c := cfgs[jr%4]
